@@ -88,6 +88,7 @@ pub struct Profile {
     pub p_burst: u64,
     /// occasionally a much longer history (ten times the application actions, up to 150)
     pub p_long: u64,
+    pub p_storm: u64,
 }
 
 impl Profile {
@@ -138,6 +139,7 @@ impl Profile {
             p_align: 120,
             p_burst: 60,
             p_long: 30,
+            p_storm: 15,
         }
     }
 }
@@ -206,7 +208,7 @@ pub fn cfg_to_line(c: &Cfg) -> String {
         Transport::Reliable { timeout_ns } => format!("transport=reliable timeout={}", timeout_ns),
     };
     format!(
-        "{} max_tx={} mech={} fp={} user={} password={} realm={} cookie={} anon={} algs={} legacy={} lenient={} lat={} n_app={} n_inj={} retries={} txid_seed={} profile={}",
+        "{} max_tx={} mech={} fp={} user={} password={} realm={} cookie={} anon={} algs={} legacy={} lenient={} lat={} n_app={} n_inj={} retries={} txid_seed={} profile={} storm={}",
         tr,
         c.max_tx,
         mech_to_str(&c.mech),
@@ -224,7 +226,8 @@ pub fn cfg_to_line(c: &Cfg) -> String {
         c.n_inj,
         c.retry_budget,
         c.txid_seed,
-        c.profile
+        c.profile,
+        c.storm as u8
     )
 }
 
@@ -259,6 +262,7 @@ pub fn cfg_from_line(s: &str) -> Cfg {
         retry_budget: kv_u64(&kv, "retries", 3) as u32,
         txid_seed: kv_u64(&kv, "txid_seed", 1),
         profile: kv_str(&kv, "profile", "replay"),
+        storm: kv_u64(&kv, "storm", 0) != 0,
     }
 }
 
@@ -287,7 +291,8 @@ fn gen_cfg(p: &Profile, rng: &mut Rng) -> Cfg {
             rto_ns: rto.max(1000),
             gran_ns: *rng.pick(&[1000, MS, MS, 10 * MS, 50 * MS, rto.max(1000), 2 * rto.max(1000)]),
             rm: rng.range(p.rm.0, p.rm.1) as u32,
-            rc: rng.range(p.rc.0, p.rc.1) as u32,
+            // now and then more transmissions than the default of seven (the intervals keep doubling)
+            rc: if p.rc.1 >= 7 && rng.chance(1, 25) { rng.range(9, 12) as u32 } else { rng.range(p.rc.0, p.rc.1) as u32 },
         }
     };
     let tot: u64 = p.mech_w.iter().sum();
@@ -307,7 +312,7 @@ fn gen_cfg(p: &Profile, rng: &mut Rng) -> Cfg {
         3 => Mech::ShortTerm(Some(Alg::Sha)),
         _ => Mech::LongTerm,
     };
-    Cfg {
+    let mut c = Cfg {
         transport,
         max_tx: *rng.pick(p.max_tx),
         mech,
@@ -333,7 +338,16 @@ fn gen_cfg(p: &Profile, rng: &mut Rng) -> Cfg {
         retry_budget: rng.range(0, 4) as u32,
         txid_seed: rng.next_u64() | 1,
         profile: p.name.to_string(),
+        storm: false,
+    };
+    // swarm mood "storm": more requests than the default limit outstanding at once (back to back), most
+    // replies failing authentication -- bookkeeping that is sized after the default limit shows here
+    if rng.chance(p.p_storm, 1000) {
+        c.storm = true;
+        c.max_tx = *rng.pick(&[11usize, 12, 16, 24, 32]);
+        c.n_app = rng.range(11, 36) as usize;
     }
+    c
 }
 
 // ---------------------------------------------------------------------------------------------
@@ -1348,6 +1362,7 @@ impl<'a> World<'a> {
             let p = self.profile.clone();
             let off = self.swarm_off[SW_SRV];
             let mech = self.cfg.mech.clone();
+            let storm = self.cfg.storm;
             let v = self.src.decide(&format!("srv#{}", n), |rng| {
                 if off {
                     return None;
@@ -1360,7 +1375,7 @@ impl<'a> World<'a> {
                 if rng.chance(p.p_srv_code, 1000) {
                     parts.push(format!("code={}", *rng.pick(&[300u64, 400, 420, 500, 699, 401, 438])));
                 }
-                if mech != Mech::None && rng.chance(p.p_srv_integ, 1000) {
+                if mech != Mech::None && rng.chance(if storm { 850 } else { p.p_srv_integ }, 1000) {
                     parts.push(format!("integ={}", *rng.pick(&["none", "bad", "wrongkey", "other", "both", "mi", "sha"])));
                 }
                 if rng.chance(p.p_srv_fp, 1000) {
@@ -1714,6 +1729,7 @@ impl<'a> World<'a> {
             let first = k == 0;
             let off = self.swarm_off[SW_APP];
             let align_unit = self.cfg.rc_rm_rto().2.max(1);
+            let storm = self.cfg.storm;
             let v = self.src.decide(&format!("app#{}", k), |rng| {
                 let gap = if first {
                     rng.below(1000)
@@ -1726,7 +1742,7 @@ impl<'a> World<'a> {
                         2 => 600 * SEC - rng.below(SEC),
                         _ => rng.log_range(600 * SEC, 5000 * SEC),
                     }
-                } else if burst_left > 0 || rng.chance(p.p_burst, 1000) {
+                } else if burst_left > 0 || rng.chance(if storm { 900 } else { p.p_burst }, 1000) {
                     // back to back with the previous action: the same instant, or one nanosecond later;
                     // bursts come in runs of 2-9 actions
                     if burst_left > 0 {
